@@ -291,7 +291,9 @@ def _concurrent_objects(job):
     import py7zr
     os.chdir(job["cwd"])
     sched = schedlib.Sched(job["order"], last_of_folder=(), serial_exit=False)
-    facs = [schedlib.SchedFactory(sched, prefix="%d:" % i) for i in range(job["n"])]
+    fail = job.get("fail") or {}
+    facs = [schedlib.SchedFactory(sched, prefix="%d:" % i, fail_on=fail.get(i), fail_exc=(OSError(28, "injected: no space") if i in fail else None))
+            for i in range(job["n"])]
     errs = [None] * job["n"]
 
     def one(i):
@@ -489,6 +491,19 @@ def run(ctx):
                         ptr[i] += 1
                     cjobs.append({"path": path, "folders": folders, "order": order, "n": n, "kinds": kinds, "cwd": tmp})
                     cmeta.append((shape, cs, kinds))
+            # ... and one of the objects fails (its output for one member cannot be written) before the other has
+            # written anything: the failure is the failing object's alone
+            if sum(shape) >= 2:
+                victim_kind = rng.choice(["path", "path", "stream"])
+                bad_member = folders[0][0][0]
+                seq_b = schedlib.sample_interleaving(rng, shape) if victim_kind == "path" else tuple(fi for fi in range(k) for _ in range(shape[fi]))
+                cnt = [0] * k
+                order = ["0:" + bad_member]
+                for fi in seq_b:
+                    order.append("1:%s" % folders[fi][cnt[fi]][0])
+                    cnt[fi] += 1
+                cjobs.append({"path": path, "folders": folders, "order": order, "n": 2, "kinds": ["path", victim_kind], "cwd": tmp, "fail": {0: bad_member}})
+                cmeta.append((shape, cs, ["path(fails)", victim_kind]))
 
         # ---------------------------------------------------------------- run
         res = sandbox.pmap(_sched_threads, jobs, timeout=90)
@@ -707,6 +722,10 @@ def run(ctx):
             ctx.count("concurrent-enforced", val["enforced"])
             want = _render(job["folders"], {n: d for mem in job["folders"] for n, d in mem}, None)
             for i, ln in enumerate(val["lines"]):
+                if i in (job.get("fail") or {}):
+                    if "raise=- " in ln + " ":
+                        ctx.fail("C13:worker_error_lost", "object %d could not write one of its outputs and its extractall() returned normally: %s" % (i, ln), dict(conf, line=ln))
+                    continue
                 if ln != want:
                     ctx.fail("C13:objects_disturb_each_other", "object %d of %s delivered %s" % (i, kinds, ln), dict(conf, line=ln))
     finally:
